@@ -26,10 +26,12 @@ from vcore import Failure
 PROP = "C03"
 RULE = (
     "bounded-exhaustive layouts (common chain, referrer chain, target chain of groups/repeats; depth <= 3 quick / 4 "
-    "thorough) x 3 name policies (neutral, string-prefix related, length aligned); every form carries referrers of "
+    "thorough) x 4 name policies (neutral, string-prefix related, length aligned, container names reused by unreferenced "
+    "elements elsewhere); every form carries referrers of "
     "kind question/group/repeat with every reference-bearing cell kind, each naming targets of kind "
     "question/group/repeat incl. all ancestors of the referrer and itself; plus random deeper trees with mixed "
-    "expressions (several refs, indexed-repeat(), instance() predicates, last-saved) and unknown/ambiguous names; "
+    "expressions (several refs, indexed-repeat(), instance() predicates incl. nested ones, select_one_external filters, "
+    "last-saved), re-used names, and unknown/ambiguous names; "
     "distinct by canonical hash of the form; non-trivial = at least one reference checked"
 )
 
@@ -60,9 +62,18 @@ def layout_form(common, rchain, tchain, policy, target_first=True):
     def end(kind):
         rows.append({"type": f"end {kind}"})
 
-    anc = list(kn) + list(cn)
+    reuse = policy == "reuse"
+    # reuse: every container name is carried by a second, unreferenced element elsewhere in the form (names only
+    # have to be unique among siblings), so ancestors cannot be named as targets there
+    anc = [] if reuse else ["data"] + list(kn) + list(cn)
     targets = ["tq", "tg", "tr"]
     T = targets + anc
+
+    def nested(names, op="and"):
+        """an instance() predicate whose first reference sits in a nested [...] and the others after it"""
+        inner = "instance('l')/root/item[name = ${%s}]/label" % names[0]
+        rest = "".join(f" {op} label = ${{{n}}}" for n in names[1:])
+        return f"name = {inner}{rest}"
 
     def target_side():
         for k, n in zip(tchain, tn):
@@ -93,16 +104,20 @@ def layout_form(common, rchain, tchain, policy, target_first=True):
         rows.append({"type": "calculate", "name": "kl",
                      "calculation": "concat(" + ", ".join(f"${{last-saved#{n}}}" for n in T) + ") + "
                      + "instance('l')/root/item[" + " or ".join(f"name = ${{{n}}}" for n in T) + "]/label"})
+        rows.append({"type": "calculate", "name": "kn",
+                     "calculation": "instance('l')/root/item[" + nested(T) + "]/label"})
         rows.append({"type": "select_one l", "name": "s", "label": "S",
                      "choice_filter": " or ".join(f"name = ${{{n}}}" for n in T),
                      "parameters": "randomize=true, seed=${tq}"})
+        rows.append({"type": "select_one l", "name": "sn", "label": "SN", "choice_filter": nested(T, "or")})
+        rows.append({"type": "select_one_external cities", "name": "sx", "label": "SX", "choice_filter": nested(T)})
         begin("group", "cg", relevant=_bool(T + ["cgq"]))
         rows[-1]["label"] = _text("GL", T + ["cgq"])
         rows.append({"type": "text", "name": "cgq", "label": "CGQ"})
         end("group")
         begin("repeat", "cr", relevant=_bool(T + ["crq"]), repeat_count="${tq}")
         rows[-1]["label"] = _text("RL", T + ["crq"])
-        rows.append({"type": "text", "name": "crq", "label": "CRQ", "relevant": _bool(T + ["cr"])})
+        rows.append({"type": "text", "name": "crq", "label": "CRQ", "relevant": _bool(T + ([] if reuse else ["cr"]))})
         end("repeat")
         begin("repeat", "cx", repeat_count=_concat(T))
         rows.append({"type": "text", "name": "cxq", "label": "CXQ"})
@@ -110,6 +125,14 @@ def layout_form(common, rchain, tchain, policy, target_first=True):
         for k in reversed(rchain):
             end(k)
 
+    def reuse_box():
+        begin("group", "zz_names")
+        for n in list(kn) + list(cn) + list(tn) + ["cg", "cr", "cx"]:
+            rows.append({"type": "text", "name": n, "label": "again " + n})
+        end("group")
+
+    if reuse and target_first:
+        reuse_box()
     for k, n in zip(common, kn):
         begin(k, n)
     if target_first:
@@ -120,9 +143,12 @@ def layout_form(common, rchain, tchain, policy, target_first=True):
         target_side()
     for k in reversed(common):
         end(k)
+    if reuse and not target_first:
+        reuse_box()
     return {
         "survey": rows,
         "choices": [{"list_name": "l", "name": "a", "label": "A"}, {"list_name": "l", "name": "b", "label": "B"}],
+        "external_choices": [{"list_name": "cities", "name": "c1", "label": "C1"}],
     }
 
 
@@ -187,8 +213,11 @@ def random_expr(rng, els, text=False):
         if x < 0.75 and reps:
             idx = rng.choice(["1", "${%s}" % rng.choice(qs), "2"])
             return "indexed-repeat(${%s}, ${%s}, %s)" % (rng.choice(qs), rng.choice(reps), idx)
-        if x < 0.9:
+        if x < 0.87:
             return "instance('l')/root/item[name = ${%s}]/label" % rng.choice(anyn)
+        if x < 0.93 and not text:
+            return "instance('l')/root/item[name = instance('l')/root/item[name = ${%s}]/label and label = ${%s}]/label" % (
+                rng.choice(anyn), rng.choice(anyn))
         return rng.choice(["1", "'x'", "."])
 
     n = rng.randint(1, 4)
@@ -221,20 +250,55 @@ def decorate(rng, rows, els):
     return rows
 
 
+def add_reused_names(rng, rows, els):
+    """names that nobody references, carried a second time by questions in a fresh group (legal: names only have
+    to be unique among siblings)"""
+    referenced = set()
+    for r in rows:
+        for c, v in r.items():
+            if isinstance(v, str) and c not in ("type", "name"):
+                referenced.update(m.group(2) for m in rc.REF_RE.finditer(v))
+    cand = [e[0] for e in els if e[0] not in referenced]
+    if not cand:
+        return rows
+    pick = rng.sample(cand, min(len(cand), rng.randint(1, 3)))
+    box = [{"type": "begin group", "name": "zz_box", "label": "Z"}] + [
+        {"type": "text", "name": n, "label": "again"} for n in pick] + [{"type": "end group"}]
+    return box + rows if rng.random() < 0.5 else rows + box
+
+
 def code_ia_flag(src, start, end, name):
-    """The indexed-repeat verdict of `_is_return_relative_path` for an expression with exactly ONE
-    `indexed-repeat(` call without nested parentheses (the modelled fragment): True = absolute-by-design."""
-    m = re.search(r"indexed-repeat\([^)]+\)", src)
-    if not m:
+    """The indexed-repeat verdict of `_is_return_relative_path` (as repaired by afee63f): the call that contains the
+    occurrence decides; True = absolute-by-design.  Calls without nested parentheses only (what is generated)."""
+    for m in re.finditer(r"indexed-repeat\([^)]+\)", src):
+        if start < m.start() or end > m.end():
+            continue
+        args = re.search(r"\b[^()]+\((.*)\)$", m.group()).group(1).split(",")
+        idx = None
+        for i, a in enumerate(args):
+            if "${%s}" % name in a.strip():
+                idx = i
+        return not (idx is not None and idx not in (0, 1, 3, 5))
+    return False
+
+
+def code_ip_flag(src, start, end):
+    """`_in_secondary_instance_predicate` as the code decides it (RE_INSTANCE / RE_BRACKET of survey.py 36-39): the
+    model's `inPredicate` input for cells whose whole text is the regex subject (binds, attributes)."""
+    if re.search(r"instance\([^)]+.+", src) is None:
         return False
-    if end > m.end() or end < m.start() or start > m.end():
-        return False
-    args = re.search(r"\b[^()]+\((.*)\)$", m.group()).group(1).split(",")
-    idx = None
-    for i, a in enumerate(args):
-        if "${%s}" % name in a.strip():
-            idx = i
-    return not (idx is not None and idx not in (0, 1, 3, 5))
+    return any(start >= m.start() and end <= m.end() for m in re.finditer(r"\[([^]]+)\]", src))
+
+
+def after_nested_bracket(src, start):
+    """the occurrence sits in an open `[` and a `]` of a nested predicate lies between that `[` and it"""
+    opens = []
+    for i, c in enumerate(src[:start]):
+        if c == "[":
+            opens.append(i)
+        elif c == "]" and opens:
+            opens.pop()
+    return bool(opens) and "]" in src[opens[0]:start]
 
 
 # --------------------------------------------------------------------------- oracle
@@ -457,6 +521,8 @@ def survey_elements(survey):
     return list(survey.iter_descendants(lambda i: isinstance(i, Question | Section)))
 
 
+TEXT_CELLS = ("label", "hint", "guidance_hint", "constraint_message", "required_message")
+
 FLAG_SHAPES = [
     # (text around the reference, model flags)
     ("${%s}", {}),
@@ -472,23 +538,23 @@ def corr_whole(ctx, form, holes, survey):
     tree = survey_tree(survey)
     qs, hs = [], []
     for h in holes:
-        if h["src"].count("indexed-repeat(") > 1:
-            ctx.count("fragment:unsupported(multiple indexed-repeat)")
-            continue
         ctx.count("fragment:modelled")
-        q = {"ctx": h["trigger"] if h["cell"] == "trigger-value" else h["ctx"], "name": h["info"]["name"],
+        q = {"ctx": h["ctx"], "name": h["info"]["name"],
              "ls": h["info"]["last_saved"],
              "ia": code_ia_flag(h["src"], h["info"]["start"], h["info"]["end"], h["info"]["name"]),
-             "ip": h["flags"]["in_pred"] and h["cell"] != "choice_filter", "uc": h["cell"] == "choice_filter", "rp": False}
+             "ip": (code_ip_flag(h["src"], h["info"]["start"], h["info"]["end"]) if h["cell"] not in TEXT_CELLS
+                    else h["flags"]["in_pred"]) and h["cell"] != "choice_filter",
+             "uc": h["cell"] == "choice_filter", "rp": False}
         qs.append(q)
         hs.append(h)
     if not qs:
         return
     res = ctx.driver.call("refs.model", tree=tree, queries=qs)
-    # The context handed to insert_xpaths is a call-site choice, not part of the Lean model.  For the value of a
-    # triggered calculation the code passes the triggering question (finding F39); a repaired call site passes the
-    # calculated question.  Either is the model function at *some* call-site context; the oracle judges the choice.
-    alt = [(h, dict(q, ctx=h["ctx"])) for h, q in zip(hs, qs) if h["cell"] == "trigger-value"]
+    # `inPredicate` is an input of the model.  Where the code's regex verdict (first `]` ends the predicate) and the
+    # bracket-depth reading differ — finding F44 — a repaired `_in_secondary_instance_predicate` yields the model
+    # value at the other input; the oracle, not the correspondence, judges which one the property demands.
+    alt = [(h, dict(q, ip=h["flags"]["in_pred"])) for h, q in zip(hs, qs)
+           if h["cell"] not in TEXT_CELLS and h["cell"] != "choice_filter" and q["ip"] != h["flags"]["in_pred"]]
     altres = {}
     if alt:
         for (h, _q), m in zip(alt, ctx.driver.call("refs.model", tree=tree, queries=[q for _h, q in alt])):
@@ -536,8 +602,8 @@ def corr_direct(ctx, form, survey, rng, npairs):
                     msg = str(e)
                     out = {"out": "unknown" if "no survey element" in msg else "ambiguous" if "multiple survey elements" in msg else "error:" + msg,
                            "name": t.name if f"${{{'last-saved#' if fl.get('ls') else ''}{t.name}}}" in msg and f"'{t.name}'" in msg else None}
-                except IndexError:
-                    out = {"out": "internal"}
+                except Exception as e:  # noqa: BLE001 - a crash of the implementation is an observation, not harness trouble
+                    out = {"out": "crash:" + type(e).__name__}
                 mq.append(q)
                 mimpl.append(out)
     fres = ctx.driver.call("refs.funcs", tree=tree, pairs=fq)
@@ -548,7 +614,6 @@ def corr_direct(ctx, form, survey, rng, npairs):
     mres = ctx.driver.call("refs.model", tree=tree, queries=mq)
     for q, a, b in zip(mq, mimpl, mres):
         ctx.count(f"direct:_var_repl_function:{a['out']}")
-        b = {k: v for k, v in b.items() if k != "site"}
         if a != b:
             ctx.mismatch("_var_repl_function", {"form": form, "query": q}, a, b)
 
@@ -641,21 +706,24 @@ def explore(ctx, factor, bs):
     depth = ctx.pick(3, 4)
     n = 0
     for common, rchain, tchain in rc.layouts(depth):
-        for policy in ("neutral", "prefix", "aligned"):
-            if policy != "neutral" and not (rchain or tchain):
+        for policy in ("neutral", "prefix", "aligned", "reuse"):
+            if policy in ("prefix", "aligned") and not (rchain or tchain):
                 continue
             n += 1
             form = layout_form(common, rchain, tchain, policy, target_first=(n % 2 == 0))
             ctx.count(f"policy:{policy}")
             ctx.count(f"depth:{len(common) + max(len(rchain), len(tchain))}")
-            form_case(ctx, form, direct=ctx.pick(40, 120) * factor)
+            form_case(ctx, form, direct=ctx.pick(20, 100) * factor)
     # random deeper trees, mixed expressions
-    nrand = ctx.pick(350, 6000) * factor
+    nrand = ctx.pick(300, 6000) * factor
     for i in range(nrand):
         rows, els = random_form(ctx.rng, ctx.rng.choice([3, 5, ctx.pick(6, 8)]), ctx.rng.choice([6, 12, 25]))
         if not els:
             continue
         decorate(ctx.rng, rows, els)
+        if ctx.rng.random() < 0.4:
+            rows = add_reused_names(ctx.rng, rows, els)
+            ctx.count("random:with-reused-names")
         form = {"survey": rows, "choices": [{"list_name": "l", "name": "a", "label": "A"}, {"list_name": "l", "name": "b", "label": "B"}]}
         form_case(ctx, form, tag="random", direct=10 if i % 5 == 0 else 0)
         # a name that does not exist / exists twice
@@ -670,33 +738,16 @@ def replay(ctx, payload, bs):
     return (len(ctx.failures), len(ctx.mismatches)) == before
 
 
-def m_trigger_value_context(f: Failure) -> bool:
-    """calculation of a question with a trigger: the setvalue's value is expanded with the *triggering* question
-    as context (question.py nest_set_nodes), but a setvalue's value is evaluated from its ref node; the hole is
-    exactly what would be right from the triggering question's node"""
+def m_ref_after_nested_bracket(f: Failure) -> bool:
+    """`_in_secondary_instance_predicate` finds predicates with RE_BRACKET = \\[([^]]+)\\], which ends at the first `]`:
+    a reference that follows a nested `[...]` inside an instance() predicate is not seen as inside it and gets a
+    relative path without current() (call sites that pass use_current=True — choice filters — are not affected)"""
     x = f.extra
-    if x.get("cell") != "trigger-value" or x.get("trigger") is None:
-        return False
-    if f.kind == "wrong-node":
-        return x.get("resolved_from_trigger") == x.get("target") and x.get("form_kind") == "rel"
-    if f.kind == "absolute-when-enclosed":
-        # seen from the triggering question the target is not enclosed, so the absolute path is what that context yields
-        return x.get("enclosed_from_trigger") is False
-    return False
+    return (f.kind == "predicate-not-anchored" and x.get("cell") not in ("choice_filter",) + TEXT_CELLS
+            and x.get("src") is not None and after_nested_bracket(x["src"], x.get("start", 0)))
 
 
-def m_second_indexed_repeat(f: Failure) -> bool:
-    """`_is_return_relative_path` walks the indexed-repeat() matches with a for loop *and* `next()` on the same
-    iterator, so with two or more indexed-repeat( calls in one expression every reference that ends after the first
-    call is judged against the wrong call (or none): an ordinary reference after them comes out absolute although enclosed"""
-    x = f.extra
-    if f.kind != "absolute-when-enclosed" or x.get("src") is None:
-        return False
-    calls = [m for m in re.finditer(r"indexed-repeat\([^)]+\)", x["src"])]
-    return len(calls) >= 2 and x.get("start", -1) > calls[0].end() - 1 and not x.get("last_saved")
-
-
-MATCHERS = {"F39-trigger-value-context": m_trigger_value_context, "F40-refs-after-two-indexed-repeat": m_second_indexed_repeat}
+MATCHERS = {"F44-predicate-ref-after-nested-bracket": m_ref_after_nested_bracket}
 
 
 def main(argv):
